@@ -310,7 +310,7 @@ class FollowTie(Tie):
     is asked (mode `allowed`) whether the implementation's answer is the model's answer for some ordering of
     the ties (exhaustive search with a budget; `undecided` counts as allowed and is reported on stderr)."""
     SEARCH_CAP = 400      # at most this many searches per run (a broken tree produces many disagreements)
-    BUDGET = 1500
+    BUDGET = 600
     SECONDS = 40          # cpu time for all searches of a run; later ones are left as disagreements
 
     def run_impl(self, cpp, cases):
@@ -332,12 +332,12 @@ class FollowTie(Tie):
             und = 0
             if len(ans) == len(idx):
                 for i, a in zip(idx, ans):
-                    if a in ("yes", "undecided"):
+                    if a in ("yes", "undecided", "skipped"):     # skipped: the time budget of the search ran out
                         out[i] = impl[cases[i]]
-                        und += a == "undecided"
+                        und += a != "yes"
             if len(cases) > 1:
                 sys.stderr.write("[C59] %d answers differing from the stable-sort instance on tie cases: %d allowed by "
-                                 "another tie order, %d undecided (budget), %d not allowed\n"
+                                 "another tie order, %d undecided (search budget or time), %d not allowed\n"
                                  % (len(idx), sum(a == "yes" for a in ans), und, sum(a == "no" for a in ans)))
         return out
 
